@@ -102,6 +102,16 @@ def check_string(s, names, mode, win, out, stream, converse=False):
         except Exception:
             ms_ = mb_ = None
         out.evaluations += 1
+        if mode == 'gl' and ms_ is not None:
+            # FORCEWIN together with FORCEUNIX means neither (this host's rules): is_magic() judges as every matching call does
+            both_ = G.is_magic(s, flags=fl | G.FORCEWIN | G.FORCEUNIX)
+            none_ = G.is_magic(s, flags=fl & ~(G.FORCEWIN | G.FORCEUNIX))
+            if both_ != none_:
+                out.violation({'s': s, 'hex': s.encode().hex(), 'pattern': s, 'flags': names, 'mode': mode, 'win': win, 'converse': converse, 'stream': stream,
+                               'is_magic_both_platform_flags': both_, 'is_magic_without': none_,
+                               'problem': 'is_magic() with FORCEWIN|FORCEUNIX differs from is_magic() with neither'},
+                              size=len(s) * 10 + len(names), bucket=('is-magic-both', win))
+                return
         if ms_ != mb_:
             out.violation({'s': s, 'hex': s.encode().hex(), 'pattern': s, 'flags': names, 'mode': mode, 'win': win, 'converse': converse, 'stream': stream,
                            'is_magic_str': ms_, 'is_magic_bytes': mb_, 'problem': 'is_magic() differs between str and bytes'},
